@@ -67,6 +67,8 @@ type c16Spec struct {
 	ForkAt     int       `json:"fork_at,omitempty"` // 0 = no fork; side branch = ForkAt+1 .. L+1
 	ReorgDepth int       `json:"assumed_reorg_depth,omitempty"`
 	Items      []c16Item `json:"items"`
+	// Start: the keyper's configured sync start block (no registration or log lies below it)
+	Start int `json:"sync_start_block,omitempty"`
 }
 
 type c16Step struct {
@@ -214,7 +216,7 @@ func newC16World(spec c16Spec, maxRange uint64) *c16World {
 			p = build("fork", h, p)
 		}
 	}
-	w.env = syncx.NewEnv(syncx.Multi, w.chain, syncx.Options{Start: 0, MaxRequestBlockRange: maxRange, AssumedReorgDepth: spec.ReorgDepth})
+	w.env = syncx.NewEnv(syncx.Multi, w.chain, syncx.Options{Start: uint64(spec.Start), MaxRequestBlockRange: maxRange, AssumedReorgDepth: spec.ReorgDepth})
 	return w
 }
 
@@ -640,6 +642,27 @@ func c16ForkChains(thorough bool) []c16Spec {
 					}
 				}
 			}
+		}
+	}
+	// the same chains followed by a keyper whose sync start block is the first block
+	// after the fork point (the reorg replaces the start block itself), where a
+	// registration sits in that block and nothing lies below it
+	n := len(out)
+	for i := 0; i < n; i++ {
+		sp := out[i]
+		ok, regAtStart := sp.ForkAt > 0, false
+		for _, it := range sp.Items {
+			if it.Height < sp.ForkAt+1 {
+				ok = false
+			}
+			if it.Type == "reg" && it.Height == sp.ForkAt+1 {
+				regAtStart = true
+			}
+		}
+		if ok && regAtStart {
+			sp.Start = sp.ForkAt + 1
+			sp.Name += fmt.Sprintf(",start@%d", sp.Start)
+			out = append(out, sp)
 		}
 	}
 	return out
